@@ -1,7 +1,8 @@
 (* C01 Longest match with first-rule priority, recovered by backtracking. *)
 From LexVerif Require Import Base CharClass RangeMap Regex Spec SpecExec LexSpec Nfa Dfa NfaToDfa NfaSem Codegen
      Runtime ScanIface RulesetSem Driver SpecDef ClassAlgProofs RuntimeProofs RuntimeLemmas ScanOkProofs
-     RulesetSemProofs LexSpecProofs LexSpecFacts EndToEnd Harness.
+     RulesetSemProofs LexSpecProofs LexSpecFacts EndToEnd EndToEndModel Instance Harness.
+From LexVerif.Gen Require Import GenTables GenConsts.
 From LexVerif Require Import BacktrackProofs.
 
 (* ---- the backtrack-elision analysis (L5) ---- *)
@@ -146,6 +147,42 @@ Proof. exact lexer_correct. Qed.
 Theorem c01_certificates_sound : forall c, certs_ok_b c = true -> certs_ok c.
 Proof. exact certs_ok_b_sound. Qed.
 
+(* the same with no certificate hypothesis: the model of the whole macro pipeline is correct *)
+Theorem c01_lexer_correct_model :
+  forall benv mg (width : N -> N) tab_width (T E U : Type) (d : def) c rss (actions : nat -> action T E U),
+  benv_wf benv ->
+  compile benv mg d = Ok c ->
+  def_rulesets d = Ok rss ->
+  wf_def benv d = true ->
+  def_chars_ok benv rss ->
+  acts_distinct d ->
+  (forall a v u n, a_switch (actions a v u) = Some n -> n < length (p_switch (c_program c))) ->
+  forall whole u with_str,
+    Forall (fun ch => is_scalar ch = true) whole ->
+    (with_str = false -> RuntimeProofs.text_blind T E U actions) ->
+  forall n fuel, enough_fuel U fuel (lexer_new U whole u with_str) ->
+  exists r, spec_run benv width tab_width T E U rss actions n (s_init U whole u) r /\
+            run_lexer width tab_width T E U (c_program c) actions n fuel
+              (lexer_new U whole u with_str) = map (outcome_of T E) r.
+Proof. exact lexer_correct_model. Qed.
+
+(* non-vacuity: a concrete definition with two rule sets, a right context, a join reachable with and
+   without an earlier accepting state, a switch target and a `$` rule meets every hypothesis *)
+Definition d_example : def :=
+  [TRuleSet name_Init
+     [RBRule (mkRule (RChar 97) (Some (RChar 98)) 0);
+      RBRule (mkRule (RCat (ROr (RChar 97) (RChar 99)) (RCat (RChar 100) (RChar 101))) None 1);
+      RBRule (mkRule (RChar 115) None 2)];
+   TRuleSet [82%N]
+     [RBRule (mkRule (RPlus (RCharSet [CRange 97 99])) None 3);
+      RBRule (mkRule REoi None 4)]].
+Example c01_hypotheses_satisfiable :
+  match compile builtin_table MAX_GUARD_SIZE d_example with
+  | Ok c => model_hyps d_example = true /\ certs_ok_b c = true /\ length (p_switch (c_program c)) = 2
+  | Panic _ => False
+  end.
+Proof. vm_compute. repeat split; reflexivity. Qed.
+
 Print Assumptions c01_flags_sound.
 Print Assumptions c01_flags_precise.
 Print Assumptions c01_flags_sound_needs_targets_ok.
@@ -159,3 +196,5 @@ Print Assumptions c01_compiled_scan_ok.
 Print Assumptions c01_ruleset_sem.
 Print Assumptions c01_lexer_correct.
 Print Assumptions c01_certificates_sound.
+Print Assumptions c01_lexer_correct_model.
+Print Assumptions c01_hypotheses_satisfiable.
